@@ -28,12 +28,19 @@
 (*   call(func, args, kwargs)      three specs evaluated in argument mode              *)
 (*   invoke(func, chunks)          chunks[i] = [c: "C"|"S"|"*", args, kw]               *)
 (*   ref(name, def, kids)                                                              *)
+(*   inspect(kids, rec, echo, bp, pm)   Inspect(x, recursive=, echo=, breakpoint=, post_mortem=) *)
+(*   set(kids, frozen)                  a set / frozenset used as a spec (Fill / argument mode)   *)
+(*   sget(name, form)  sset(names, kids)  aset(name)     S.v / S['v'],  S(v=arg),  A.v            *)
+(*   specs(kids, scope)                 Spec(x, scope={name: value})                              *)
+(* The top-level call  glom(target, spec, default=, skip_exc=, scope=)  is RunTop.                *)
 EXTENDS GlomAccess
 
 \* =====================================================================================
 \* PART 1 - mechanism
 \* =====================================================================================
-St0(heap)   == [heap |-> heap, log |-> <<>>, unk |-> FALSE, div |-> FALSE]
+\* out: what Inspect printed (target / output reports); bind: the names the last S(..) / A.x
+\* step stored in its own scope (read by the chain that step belongs to)
+St0(heap)   == [heap |-> heap, log |-> <<>>, unk |-> FALSE, div |-> FALSE, out |-> <<>>, bind |-> <<>>]
 ROk(st, v)  == [st |-> st, ok |-> TRUE, v |-> v, exc |-> ""]
 RErr(st, e) == [st |-> st, ok |-> FALSE, v |-> VNone, exc |-> e]
 Unk(st)     == [st EXCEPT !.unk = TRUE]
@@ -41,7 +48,9 @@ UnkIf(st, c) == IF c THEN Unk(st) ELSE st
 Build(st, cls, items) ==                     \* a container glom creates: a fresh cell
   LET st2 == [st EXCEPT !.heap = Append(@, Cell(cls, items))] IN ROk(st2, VRef(Len(st2.heap)))
 
-Env0(fuel, mut) == [mode |-> "auto", minmode |-> "none", refs |-> <<>>, fuel |-> fuel, mut |-> mut]
+NoTrace == [on |-> FALSE, rec |-> FALSE, echo |-> FALSE, bp |-> "", pm |-> ""]
+Env0(fuel, mut) == [mode |-> "auto", minmode |-> "none", refs |-> <<>>, fuel |-> fuel, mut |-> mut,
+                    trace |-> NoTrace, scope |-> <<>>]
 
 \* ---- exception classes ------------------------------------------------------------------
 Supers(e) ==
@@ -185,7 +194,7 @@ Apply(st, fv, args, kw) ==
 
 \* ---- T / path steps -------------------------------------------------------------------------
 \* GlomData models integer indexing only for the strings of StrChars
-TEval(st, t, steps) ==
+TEvalPlain(st, t, steps) ==
   LET p == PathEval(st.heap, t, steps) IN
   IF p.ok THEN ROk(st, p.v)
   ELSE LET risky == /\ p.idx >= 0
@@ -194,15 +203,42 @@ TEval(st, t, steps) ==
                        IN c.k = "str" /\ c.s \notin DOMAIN StrChars
        IN RErr(UnkIf(st, risky), p.err)
 
+\* ---- Inspect's trace callback around one evaluation -----------------------------------------
+\* before: report the target (echo), call the breakpoint hook; result [st, ok, exc]
+TraceIn(st, tr, t) ==
+  LET s1 == IF tr.echo THEN [st EXCEPT !.out = Append(@, [k |-> "in", v |-> t])] ELSE st IN
+  IF tr.bp = "" THEN [st |-> s1, ok |-> TRUE, exc |-> ""]
+  ELSE LET b == FnApply(s1, tr.bp, <<>>, <<>>) IN [st |-> b.st, ok |-> b.ok, exc |-> b.exc]
+TraceOut(st, tr, v) == IF tr.echo THEN [st EXCEPT !.out = Append(@, [k |-> "out", v |-> v])] ELSE st
+\* a literal evaluated through scope[glom] (T step arguments, template keys): traced, value itself
+RECURSIVE TraceLits(_, _, _, _, _)
+TraceLits(st, tr, t, vals, i) ==
+  IF ~tr.on \/ i > Len(vals) THEN [st |-> st, ok |-> TRUE, exc |-> ""]
+  ELSE LET a == TraceIn(st, tr, t) IN
+       IF ~a.ok THEN a ELSE TraceLits(TraceOut(a.st, tr, vals[i]), tr, t, vals, i + 1)
+
+TEval(st, env, t, steps) ==
+  LET p == PathEval(st.heap, t, steps)
+      done == IF p.ok THEN Len(steps) ELSE IF p.idx >= 0 THEN p.idx + 1 ELSE 0   \* steps whose argument was evaluated
+      lits == TraceLits(UnkIf(st, env.trace.on /\ ~p.ok /\ p.idx < 0), env.trace, t,
+                        [i \in 1..done |-> steps[i].arg], 1) IN
+  IF ~lits.ok THEN RErr(lits.st, lits.exc)
+  ELSE TEvalPlain(lits.st, t, steps)
+
 PathSteps(segs) == [i \in 1..Len(segs) |-> Step("P", VStr(segs[i]))]
 
 \* ---- the dispatcher and the handlers ----------------------------------------------------------
-GlomitOps == {"val", "spec", "pipe", "coalesce", "call", "invoke", "ref", "fill", "auto"}
+GlomitOps == {"val", "spec", "specs", "pipe", "coalesce", "call", "invoke", "ref", "fill", "auto", "inspect"}
+TOps == {"t", "sget", "sset", "aset"}            \* TType objects (T / S / A rooted)
 
 \* chain_child re-parents the next step of a chain under the previous step's scope: whatever
 \* that step stored in its own scope (a mode switch, a Ref binding) would be seen by the next
 \* step.  That is the subject of C07 / C08; here such chains are outside the fragment.
-Leaky(s) == s.op \in {"fill", "auto"} \/ (s.op = "ref" /\ s.def)
+Leaky(s) == s.op \in {"fill", "auto", "specs"} \/ (s.op = "ref" /\ s.def) \/ (s.op = "inspect" /\ s.rec)
+\* ... with one documented exception: the names S(v=..) / A.v store are meant to be seen by the
+\* following steps of the chain
+Binds(s) == s.op \in {"sset", "aset"}
+Bound(env, s, st) == IF Binds(s) THEN [env EXCEPT !.scope = st.bind \o @] ELSE env
 
 \* Invoke: a keyword is supplied by the last constants()/specs() call that mentions it
 Current(env, chunks, i, name) ==
@@ -216,7 +252,9 @@ StarAbsent(x) == x = <<>> \/ IsNoneConst(x[1])
 CallArgs(s)   == IF IsNoneConst(s.args) THEN [op |-> "tuple", kids |-> <<>>] ELSE s.args
 CallKwargs(s) == IF IsNoneConst(s.kwargs) THEN [op |-> "dict", ordered |-> FALSE, keys |-> <<>>, kids |-> <<>>] ELSE s.kwargs
 
-RECURSIVE Eval(_, _, _, _), AutoMode(_, _, _, _), Literal(_, _, _, _), Glomit(_, _, _, _),
+ArgEnv(env) == [env EXCEPT !.minmode = "arg"]
+
+RECURSIVE Eval(_, _, _, _), EvalCore(_, _, _, _), Traced(_, _, _, _), TRooted(_, _, _, _), AutoMode(_, _, _, _), Literal(_, _, _, _), Glomit(_, _, _, _),
           DictLoop(_, _, _, _, _, _), ListLoop(_, _, _, _, _, _), TupleLoop(_, _, _, _, _),
           LitSeq(_, _, _, _, _, _, _), LitDict(_, _, _, _, _, _), CoalLoop(_, _, _, _, _),
           EagerRest(_, _, _, _, _), CallEval(_, _, _, _), InvokeEval(_, _, _, _),
@@ -225,14 +263,45 @@ RECURSIVE Eval(_, _, _, _), AutoMode(_, _, _, _), Literal(_, _, _, _), Glomit(_,
 \* _glom: T first, then objects with glomit (both reset MIN_MODE), then the mode function
 Eval(st, env, t, s) ==
   IF st.div THEN RErr(st, "RecursionError")
-  ELSE IF s.op = "t" THEN TEval(st, t, s.steps)
+  ELSE IF env.trace.on THEN Traced(st, env, t, s)          \* scope[glom] is Inspect's callback here
+  ELSE EvalCore(st, env, t, s)
+
+\* Inspect._trace: report, breakpoint, the real evaluation, post-mortem hook on failure, report;
+\* unless recursive the callback removes itself for everything below
+Traced(st, env, t, s) ==
+  LET tr == env.trace
+      a  == TraceIn(st, tr, t) IN
+  IF ~a.ok THEN RErr(a.st, a.exc) ELSE
+  LET cenv == IF tr.rec THEN env ELSE [env EXCEPT !.trace = NoTrace]
+      r0 == EvalCore(a.st, cenv, t, s)
+      r  == IF env.mut = "inspect_twice" THEN EvalCore(r0.st, cenv, t, s) ELSE r0 IN
+  IF r.ok THEN [r EXCEPT !.st = TraceOut(r.st, tr, r.v)]
+  ELSE IF tr.pm = "" THEN r
+  ELSE LET p == FnApply(r.st, tr.pm, <<>>, <<>>) IN IF p.ok THEN RErr(p.st, r.exc) ELSE RErr(p.st, p.exc)
+
+EvalCore(st, env, t, s) ==
+  IF s.op \in TOps THEN TRooted(st, env, t, s)
   ELSE IF s.op \in GlomitOps THEN Glomit(st, [env EXCEPT !.minmode = "none"], t, s)
   ELSE IF env.minmode = "arg" \/ env.mode = "fill" THEN Literal(st, env, t, s)
   ELSE AutoMode(st, env, t, s)
 
+\* _t_eval with root T, S or A
+TRooted(st, env, t, s) ==
+  CASE s.op = "t"    -> TEval(st, env, t, s.steps)
+    [] s.op = "sget" ->                          \* S.name (no argument evaluation) / S['name']
+         LET lits == TraceLits(st, env.trace, t, IF s.form = "[" THEN <<VStr(s.name)>> ELSE <<>>, 1)
+             j == FindKey(env.scope, s.name, 1) IN
+         IF ~lits.ok THEN RErr(lits.st, lits.exc)
+         ELSE IF j = 0 THEN RErr(lits.st, "PathAccessError") ELSE ROk(lits.st, env.scope[j][2])
+    [] s.op = "sset" ->                          \* S(name=arg, ..): values in argument mode; target passes through
+         LET vs == EvalSeq(st, ArgEnv(env), t, s.kids, 1, <<>>) IN
+         IF ~vs.ok THEN vs
+         ELSE ROk([vs.st EXCEPT !.bind = [i \in 1..Len(s.names) |-> <<s.names[Len(s.names) + 1 - i], vs.v[Len(s.names) + 1 - i]>>]], t)
+    [] OTHER         -> ROk([st EXCEPT !.bind = << <<s.name, t>> >>], t)     \* A.name
+
 \* AUTO
 AutoMode(st, env, t, s) ==
-  CASE s.op = "path"  -> TEval(st, t, PathSteps(s.segs))
+  CASE s.op = "path"  -> TEval(st, env, t, PathSteps(s.segs))
     [] s.op = "dict"  -> DictLoop(st, env, t, s, 1, <<>>)
     [] s.op = "list"  ->
          IF s.kids = <<>> THEN RErr(st, "IndexError")          \* spec[0]
@@ -273,7 +342,7 @@ TupleLoop(st, env, res, kids, i) ==
        ELSE IF r.v = SKIP THEN
               (IF env.mut = "tuple_skip_breaks" THEN ROk(r.st, res) ELSE TupleLoop(r.st, env, res, kids, i + 1))
        ELSE IF r.v = STOP THEN ROk(r.st, res)
-       ELSE TupleLoop(r.st, env, r.v, kids, i + 1)
+       ELSE TupleLoop(r.st, IF env.mut = "sset_not_forward" THEN env ELSE Bound(env, kids[i], r.st), r.v, kids, i + 1)
 
 \* FILL and the argument mode: plain containers are templates, everything else is a value;
 \* FILL calls callables with the target, argument mode passes them on as they are
@@ -285,6 +354,15 @@ Literal(st, env, t, s) ==
     [] s.op = "tuple" -> LitSeq(st, env, t, s.kids, "tuple", 1, <<>>)
     [] s.op = "dict"  -> IF s.ordered THEN RErr(Unk(st), "TypeError")     \* returned as the spec object itself
                          ELSE LitDict(st, env, t, s, 1, <<>>)
+    [] s.op = "set"   ->                     \* type(spec)([recurse(v) for v in spec]); the spec's own iteration order
+         IF Len(s.kids) > 1 THEN RErr(Unk(st), "TypeError")                \* (hash order) is modelled for <= 1 element
+         ELSE LET r == LitSeq(st, env, t, s.kids, "list", 1, <<>>) IN
+              IF ~r.ok THEN r
+              ELSE LET vs == r.st.heap[r.v.a].items
+                       hk == IF vs = <<>> THEN "yes" ELSE HashKind(r.st.heap, vs[1]) IN
+                   IF hk = "no" THEN RErr(r.st, "TypeError")
+                   ELSE Build(UnkIf(r.st, hk = "unk"),
+                              IF env.mut = "set_as_list" THEN "list" ELSE IF s.frozen THEN "frozenset" ELSE "set", vs)
     [] OTHER          -> RErr(Unk(st), "TypeError")
 
 LitSeq(st, env, t, kids, cls, i, acc) ==
@@ -296,7 +374,8 @@ LitSeq(st, env, t, kids, cls, i, acc) ==
 LitDict(st, env, t, s, i, acc) ==
   IF i > Len(s.kids) THEN Build(st, "dict", acc)
   ELSE LET key == s.keys[i]
-           kr == IF key.lit THEN ROk(st, key.v) ELSE Eval(st, env, t, key.s) IN
+           lk == TraceLits(st, env.trace, t, <<key.v>>, 1)           \* recurse(key) on a literal key
+           kr == IF key.lit THEN (IF lk.ok THEN ROk(lk.st, key.v) ELSE RErr(lk.st, lk.exc)) ELSE Eval(st, env, t, key.s) IN
        IF ~kr.ok THEN kr
        ELSE LET r == Eval(kr.st, env, t, s.kids[i]) IN
             IF ~r.ok THEN r
@@ -304,12 +383,13 @@ LitDict(st, env, t, s, i, acc) ==
                  IF hk = "no" THEN RErr(r.st, "TypeError")
                  ELSE LitDict(UnkIf(r.st, hk = "unk"), env, t, s, i + 1, PySetKey(acc, kr.v, r.v))
 
-ArgEnv(env) == [env EXCEPT !.minmode = "arg"]
-
 \* objects with a glomit method; env already has MIN_MODE reset
 Glomit(st, env, t, s) ==
   CASE s.op = "val"  -> ROk(st, s.v)
     [] s.op = "spec" -> Eval(st, env, t, s.kids[1])
+    [] s.op = "specs" -> Eval(st, [env EXCEPT !.scope = s.scope \o @], t, s.kids[1])     \* scope.update(self.scope)
+    [] s.op = "inspect" ->                    \* the wrapped spec is evaluated through the trace callback
+         Eval(st, [env EXCEPT !.trace = [on |-> TRUE, rec |-> s.rec, echo |-> s.echo, bp |-> s.bp, pm |-> s.pm]], t, s.kids[1])
     [] s.op = "pipe" -> TupleLoop(st, env, t, s.kids, 1)
     [] s.op = "fill" -> Eval(st, [env EXCEPT !.mode = "fill"], t, s.kids[1])
     [] s.op = "auto" -> Eval(st, [env EXCEPT !.mode = "auto"], t, s.kids[1])
@@ -410,8 +490,20 @@ EvalKw(st, env, t, chunks, ci, kw, i, acc) ==
        IF r.ok THEN EvalKw(r.st, env, t, chunks, ci, kw, i + 1, Append(acc, <<kw[i][1], r.v>>)) ELSE r
 
 Fuel == 8
-\* glom.glom(target, spec)
-Run(heap, root, spec, mut) == Eval(St0(heap), Env0(Fuel, mut), root, spec)
+\* glom.glom(target, spec, default=, skip_exc=, scope=)
+\*   opts = [dflt |-> <<>> | <<value>>, skipexc |-> <<>> | <<classes>>, scope |-> pairs]
+\* an exception of a skip_exc class (GlomError when only a default is given) is replaced by the
+\* default as it stands (None when only skip_exc is given); without both, errors pass through
+NoOpts == [dflt |-> <<>>, skipexc |-> <<>>, scope |-> <<>>]
+TopEnv(opts, mut) == [Env0(Fuel, mut) EXCEPT !.scope = opts.scope]
+RunTop(heap, root, spec, opts, mut) ==
+  LET r == Eval(St0(heap), TopEnv(opts, mut), root, spec)
+      hasd == opts.dflt # <<>> \/ opts.skipexc # <<>>
+      dv   == IF opts.dflt # <<>> THEN opts.dflt[1] ELSE VNone
+      cls  == IF opts.skipexc # <<>> THEN opts.skipexc[1] ELSE <<"GlomError">> IN
+  IF r.ok \/ ~hasd \/ r.st.div THEN r
+  ELSE IF Catches(cls, r.exc) \/ mut = "top_default_any" THEN ROk(r.st, dv) ELSE r
+Run(heap, root, spec, mut) == RunTop(heap, root, spec, NoOpts, mut)
 
 \* =====================================================================================
 \* PART 2 - canonical outcome: what the harness can observe, with the cells glom built
@@ -438,18 +530,20 @@ Walk(heap, n0, todo, order) ==
 
 Outcome(r, n0) ==
   LET heap  == r.st.heap
-      order == Walk(heap, n0, LogVals(r.st.log, 1) \o (IF r.ok THEN <<r.v>> ELSE <<>>), <<>>)
+      outs  == [i \in 1..Len(r.st.out) |-> r.st.out[i].v]
+      order == Walk(heap, n0, LogVals(r.st.log, 1) \o outs \o (IF r.ok THEN <<r.v>> ELSE <<>>), <<>>)
       cv(v) == IF IsRef(v) /\ v.a > n0 THEN [k |-> "new", a |-> InSeq(order, v.a, 1)] ELSE v
       cpairs(items) == [i \in 1..Len(items) |-> <<cv(items[i][1]), cv(items[i][2])>>]
       cvals(items)  == [i \in 1..Len(items) |-> cv(items[i])]
       ccell(c) == Cell(c.cls, IF c.cls \in MapClasses THEN cpairs(c.items) ELSE cvals(c.items))
       \* the empty tuple is a singleton in Python: its identity says nothing
-      etuple == \E i \in 1..Len(order) : heap[order[i]].cls = "tuple" /\ heap[order[i]].items = <<>>
+      etuple == \E i \in 1..Len(order) : heap[order[i]].cls \in {"tuple", "frozenset"} /\ heap[order[i]].items = <<>>
   IN [ok    |-> r.ok,
       v     |-> cv(r.v),
       exc   |-> r.exc,
       log   |-> [i \in 1..Len(r.st.log) |->
                    [fn |-> r.st.log[i].fn, args |-> cvals(r.st.log[i].args), kw |-> cpairs(r.st.log[i].kw)]],
+      out   |-> [i \in 1..Len(r.st.out) |-> [k |-> r.st.out[i].k, v |-> cv(r.st.out[i].v)]],
       cells |-> [i \in 1..Len(order) |-> ccell(heap[order[i]])],
       skip  |-> IF r.st.div THEN "div" ELSE IF r.st.unk \/ etuple THEN "unk" ELSE ""]
 
@@ -482,7 +576,7 @@ ChainLaw(st, env, t, s, W) ==
        IF ~A.ok THEN W = A
        ELSE IF A.v = SKIP THEN W = Eval(A.st, env, t, rest)
        ELSE IF A.v = STOP THEN W = ROk(A.st, t)
-       ELSE W = Eval(A.st, env, A.v, rest)
+       ELSE W = Eval(A.st, Bound(env, s.kids[1], A.st), A.v, rest)     \* (L11) S(..) / A.x bind for the rest of the chain
 
 \* (L2) a dict spec yields a new dict of the same type with the same keys in the same order
 \*      holding the sub-results, minus the entries whose sub-result is SKIP
@@ -592,6 +686,54 @@ InvokeLaw(st, env, t, s, W) ==
      /\ SubSeq(W.st.log, 1, Len(after(n).log)) = after(n).log
      /\ (s.func.op = "fn" => NewLog(W, after(n))[1].fn = s.func.name)
 
+\* (L9) Inspect(x) is transparent: outcome, call log and built values are those of x; with echo
+\*      it reports the target before and the output after (nothing after a failure); the
+\*      breakpoint hook is called first, the post-mortem hook only after a failure
+Prefix(a, b) == Len(a) <= Len(b) /\ SubSeq(b, 1, Len(a)) = a
+InspectLaw(st, env, t, s, W) ==
+  LET X == Eval(st, env, t, s.kids[1])                       \* the wrapped spec on its own
+      new == SubSeq(W.st.out, Len(st.out) + 1, Len(W.st.out))
+      quiet == {"", "mk0", "echo"} IN                        \* hooks that cannot fail
+  /\ (s.bp = "" /\ s.pm = "" =>
+        /\ W.ok = X.ok /\ W.v = X.v /\ W.exc = X.exc /\ W.st.log = X.st.log /\ W.st.heap = X.st.heap
+        /\ (~s.rec => new = (IF s.echo THEN <<[k |-> "in", v |-> t]>> ELSE <<>>)
+                           \o SubSeq(X.st.out, Len(st.out) + 1, Len(X.st.out))
+                           \o (IF s.echo /\ X.ok THEN <<[k |-> "out", v |-> X.v]>> ELSE <<>>)))
+  /\ (s.echo /\ s.bp \in quiet => new # <<>> /\ new[1] = [k |-> "in", v |-> t]
+                                   /\ (W.ok => new[Len(new)] = [k |-> "out", v |-> W.v]))
+  /\ (s.bp \in quiet /\ s.pm \in quiet => W.ok = X.ok /\ W.exc = X.exc)
+  /\ (s.bp # "" => NewLog(W, st) # <<>> /\ NewLog(W, st)[1] = [fn |-> s.bp, args |-> <<>>, kw |-> <<>>])
+  /\ (~s.rec /\ s.bp \in quiet /\ s.pm \in quiet =>
+        Len(NewLog(W, st)) = (IF s.bp = "" THEN 0 ELSE 1) + Len(NewLog(X, st))
+                             + (IF s.pm # "" /\ ~X.ok THEN 1 ELSE 0))
+
+\* (L10) a set / frozenset is not an Auto-mode spec; as a Fill / argument template it yields a new
+\*       set of the same type holding the sub-results
+SetLaw(st, env, t, s, W, lit) ==
+  IF ~lit THEN W = RErr(st, "TypeError")
+  ELSE Len(s.kids) <= 1 =>
+       LET rs == Thread(st, env, [i \in 1..Len(s.kids) |-> t], s.kids, "Failed", 1) IN
+       IF rs # <<>> /\ ~rs[1].ok THEN W = rs[1]
+       ELSE IF rs # <<>> /\ HashKind(rs[1].st.heap, rs[1].v) = "no" THEN ~W.ok /\ W.exc = "TypeError"
+       ELSE /\ FreshCell(W, st)
+            /\ W.st.heap[W.v.a] = Cell(IF s.frozen THEN "frozenset" ELSE "set", [i \in 1..Len(rs) |-> rs[i].v])
+            /\ W.st.log = LastSt(rs, st).log
+
+\* (L11) scope: S.name / S['name'] read the innermost binding in force (top-level scope=,
+\*       Spec(.., scope=), S(..) / A.x of an earlier step of an enclosing chain); a missing name is a
+\*       PathAccessError; S(name=arg) evaluates arg in argument mode, A.name takes the target; both
+\*       pass the target through
+SgetLaw(st, env, t, s, W) ==
+  LET j == FindKey(env.scope, s.name, 1) IN
+  /\ W.st.log = st.log
+  /\ IF j = 0 THEN ~W.ok /\ W.exc = "PathAccessError" ELSE W.ok /\ W.v = env.scope[j][2]
+SsetLaw(st, env, t, s, W) ==
+  LET rs == Thread(st, ArgEnv(env), [i \in 1..Len(s.kids) |-> t], s.kids, "Failed", 1)
+      m  == Len(rs) IN
+  IF m > 0 /\ ~rs[m].ok THEN W = rs[m]
+  ELSE /\ W.ok /\ W.v = t /\ W.st.log = LastSt(rs, st).log
+       /\ \A i \in 1..Len(s.names) : \E j \in 1..Len(W.st.bind) : W.st.bind[j] = <<s.names[i], rs[i].v>>
+
 \* ---- every node of a spec tree, with the target and state it actually receives ------------
 NodeLaw(st, env, t, s, W) ==
   LET genv == [env EXCEPT !.minmode = "none"]
@@ -606,6 +748,12 @@ NodeLaw(st, env, t, s, W) ==
     [] s.op = "invoke"                 -> InvokeLaw(st, genv, t, s, W)
     [] s.op = "val"                    -> W = ROk(st, s.v)
     [] s.op = "spec"                   -> W = Eval(st, genv, t, s.kids[1])
+    [] s.op = "specs"                  -> W = Eval(st, [genv EXCEPT !.scope = s.scope \o @], t, s.kids[1])
+    [] s.op = "inspect"                -> InspectLaw(st, genv, t, s, W)
+    [] s.op = "set"                    -> SetLaw(st, env, t, s, W, lit)
+    [] s.op = "sget"                   -> SgetLaw(st, env, t, s, W)
+    [] s.op = "sset"                   -> SsetLaw(st, env, t, s, W)
+    [] s.op = "aset"                   -> W.ok /\ W.v = t /\ W.st.bind = << <<s.name, t>> >> /\ W.st.log = st.log
     [] OTHER                           -> TRUE
 
 \* the law holds at this node for the state and target it receives and, recursively, at its
@@ -613,8 +761,9 @@ NodeLaw(st, env, t, s, W) ==
 \* through the remainder of the composite (a chain without its first step, a dict without its
 \* first entry, a Coalesce without its first alternative)
 RECURSIVE Lawful(_, _, _, _)
-Lawful(st, env, t, s) ==
-  LET W == Eval(st, env, t, s)
+Lawful(st, env0, t, s) ==
+  LET env == [env0 EXCEPT !.trace = NoTrace]     \* (the laws are about the evaluation itself, reports aside)
+      W == Eval(st, env, t, s)
       genv == [env EXCEPT !.minmode = "none"]
       lit  == env.minmode = "arg" \/ env.mode = "fill"
       cenv == IF s.op \in GlomitOps THEN genv ELSE env
@@ -624,7 +773,8 @@ Lawful(st, env, t, s) ==
   /\ CASE s.op = "pipe" \/ (s.op = "tuple" /\ ~lit) ->
             s.kids # <<>> =>
               /\ Lawful(st, cenv, t, s.kids[1])
-              /\ (A.ok /\ A.v # STOP => Lawful(A.st, env, IF A.v = SKIP THEN t ELSE A.v, rest))
+              /\ (A.ok /\ A.v # STOP => Lawful(A.st, IF A.v = SKIP THEN env ELSE Bound(env, s.kids[1], A.st),
+                                              IF A.v = SKIP THEN t ELSE A.v, rest))
        [] s.op = "dict" /\ ~lit /\ LitKeys(s) ->
             s.kids # <<>> =>
               /\ Lawful(st, env, t, s.kids[1])
@@ -633,7 +783,12 @@ Lawful(st, env, t, s) ==
             s.kids # <<>> =>
               /\ Lawful(st, genv, t, s.kids[1])
               /\ LET u == AltUnit(st, genv, t, s, 1) IN Rejected(s, u) => Lawful(u.st, env, t, rest)
-       [] s.op = "spec" -> Lawful(st, genv, t, s.kids[1])
+       [] s.op \in {"spec", "inspect"} -> Lawful(st, genv, t, s.kids[1])
+       [] s.op = "specs" -> Lawful(st, [genv EXCEPT !.scope = s.scope \o @], t, s.kids[1])
+       [] s.op = "sset" -> s.kids # <<>> => Lawful(st, ArgEnv(env), t, s.kids[1])
+       [] s.op = "fill" -> Lawful(st, [genv EXCEPT !.mode = "fill"], t, s.kids[1])
+       [] s.op = "auto" -> Lawful(st, [genv EXCEPT !.mode = "auto"], t, s.kids[1])
+       [] s.op \in {"list", "tuple", "set"} /\ lit -> s.kids # <<>> => Lawful(st, env, t, s.kids[1])
        [] s.op = "call" ->
             LET parts == <<s.func, CallArgs(s), CallKwargs(s)>>
                 rs == Thread(st, ArgEnv(genv), <<t, t, t>>, parts, "Failed", 1) IN
@@ -654,7 +809,8 @@ RECURSIVE SumSlots(_, _)
 SumSlots(ss, i) == IF i > Len(ss) THEN 0 ELSE FnSlots(ss[i]) + SumSlots(ss, i + 1)
 FnSlots(s) ==
   CASE s.op = "fn" -> 1
-    [] s.op \in {"tuple", "pipe", "spec", "fill", "auto", "list"} -> SumSlots(s.kids, 1)
+    [] s.op \in {"tuple", "pipe", "spec", "specs", "fill", "auto", "list", "set", "sset"} -> SumSlots(s.kids, 1)
+    [] s.op = "inspect" -> SumSlots(s.kids, 1) + (IF s.bp = "" THEN 0 ELSE 1) + (IF s.pm = "" THEN 0 ELSE 1)
     [] s.op = "dict" -> SumSlots(s.kids, 1) + SumSlots([i \in 1..Len(s.keys) |->
                                                   IF s.keys[i].lit THEN [op |-> "const"] ELSE s.keys[i].s], 1)
     [] s.op = "coalesce" -> SumSlots(s.kids, 1) + Len(s.kids) * (IF s.skip.kind = "pred" THEN 1 ELSE 0)
@@ -665,7 +821,9 @@ FnSlots(s) ==
 RECURSIVE Iterates(_)
 Iterates(s) ==
   CASE s.op \in {"list", "ref"} -> TRUE
-    [] s.op \in {"tuple", "pipe", "spec", "fill", "auto", "coalesce"} -> \E i \in 1..Len(s.kids) : Iterates(s.kids[i])
+    [] s.op = "inspect" -> (s.rec /\ (s.bp # "" \/ s.pm # "")) \/ Iterates(s.kids[1])     \* hooks run at every level
+    [] s.op \in {"tuple", "pipe", "spec", "specs", "fill", "auto", "coalesce", "set", "sset"} ->
+         \E i \in 1..Len(s.kids) : Iterates(s.kids[i])
     [] s.op = "dict" -> \/ \E i \in 1..Len(s.kids) : Iterates(s.kids[i])
                         \/ \E i \in 1..Len(s.keys) : ~s.keys[i].lit /\ Iterates(s.keys[i].s)
     [] s.op = "call" -> Iterates(s.func) \/ Iterates(s.args) \/ Iterates(s.kwargs)
